@@ -4284,11 +4284,20 @@ fn entity_value_from_name(name: &str, context: &Context, normalize: bool) -> err
     let mut parsed = String::new();
     for value in entity.borrow().values().unwrap_or_default() {
         match &value {
-            XmlEntityValue::Character(v, r) => match r {
-                10 => parsed.push(char_from_char10(v)?),
-                16 => parsed.push(char_from_char16(v)?),
-                _ => unreachable!(),
-            },
+            XmlEntityValue::Character(v, r) => {
+                let ch = match r {
+                    10 => char_from_char10(v)?,
+                    16 => char_from_char16(v)?,
+                    _ => unreachable!(),
+                };
+                // A character reference in an entity literal is part of the replacement
+                // text, so it is normalized like any other character of that text.
+                if normalize {
+                    parsed.push_str(normalize_ws(ch.to_string().as_str()).as_str());
+                } else {
+                    parsed.push(ch);
+                }
+            }
             XmlEntityValue::Entity(v) => {
                 let v = entity_value_from_name(v, context, normalize)?;
                 parsed.push_str(v.as_str());
